@@ -56,9 +56,10 @@ MENU_LIFECYCLE = dict(
     socket=["oserror"],
     setsockopt=["oserror"],
     wrap_socket=["sslerror"],
-    settimeout=["oserror"],
+    settimeout=["oserror", "valueerror"],
     close=["oserror"],
 )
+MENU_LIFECYCLE["connect"] = MENU_LIFECYCLE["connect"] + ["valueerror"]
 
 
 ALL_POINTS = ("getaddrinfo", "socket", "setsockopt", "settimeout", "connect", "sendall", "recv", "close")
@@ -317,6 +318,9 @@ class SimSocket:
         if c == "oserror":
             net.log("settimeout_fail", self)
             raise OSError(errno.EBADF, "Bad file descriptor")
+        if c == "valueerror":  # a failure that is not an OSError (bad timeout value, overflow, ...)
+            net.log("settimeout_fail", self)
+            raise ValueError("Timeout value out of range")
         self.timeout = t
         if self.inner is not None:
             self.inner.timeout = t
@@ -354,6 +358,9 @@ class SimSocket:
         if c == "timeout":
             net.log("connect_fail", self, key, "timeout", self.timeout)
             raise _realsocket.timeout("timed out")
+        if c == "valueerror":
+            net.log("connect_fail", self, key, "valueerror", self.timeout)
+            raise OverflowError("bind(): port must be 0-65535.")
         srv = net.servers.get(key)
         if srv is None or srv.is_shut_down:
             net.log("connect_fail", self, key, "noserver", self.timeout)
@@ -435,7 +442,7 @@ class SimSocket:
                 if c == "error":
                     rep = b"ERROR\r\n"
                 elif c == "client_error":
-                    rep = b"CLIENT_ERROR injected\r\n"
+                    rep = b"CLIENT_ERROR bad command line format\r\n"
                 elif c == "server_error":
                     rep = b"SERVER_ERROR injected\r\n"
                 elif c == "garbage":
